@@ -94,11 +94,15 @@ def plan(tier):
                                       label='socket-%s/n=%d/%s/chain=%s' % (plen, n, kind, cn)))
         procs.append(dict(name='socket-%s' % plen, sinks=('pipe', 'pipe'), sockbase=plen, cases=cases))
     # devlog: every facility x level x ident
-    idents = [('default', None, b'snoopy'), ('1byte', b'i', b'i'), ('255', b'J' * 255, b'J' * 255), ('tpl', b'id-%{snoopy_literal:q}-%{env:IDV}', b'id-q-VAL')]
+    idents = [('default', None, b'snoopy'), ('1byte', b'i', b'i'), ('255', b'J' * 255, b'J' * 255), ('tpl', b'id-%{snoopy_literal:q}-%{env:IDV}', b'id-q-VAL'),
+              # short templates whose expansion is long (the datagram buffer must be sized by the expansion, not by the template)
+              ('tpl-long120', b'%{env:IDL120}', b'e' * 120), ('tpl-long250', b'x%{env:IDL250}', b'x' + b'f' * 250), ('tpl-cmdline', b'%{cmdline}', None)]
     facs = list(FAC.items()) if tier == 'thorough' else list(FAC.items())
     cases = []
     for (fk, fv), (lk, lv) in itertools.product(facs, LVL.items()):
         for ik, itext, iexp in (idents if tier == 'thorough' or (fk, lk) in (('AUTHPRIV', 'INFO'), ('LOCAL7', 'DEBUG'), ('KERN', 'EMERG')) else idents[:1]):
+            if iexp is None:
+                continue
             cfg = b'[snoopy]\nmessage_format = %{env:M}\noutput = devlog\nsyslog_facility = ' + fk.encode() + b'\nsyslog_level = ' + lk.encode() + b'\n'
             if itext is not None:
                 cfg += b'syslog_ident = ' + itext + b'\n'
@@ -120,7 +124,7 @@ def run_proc(args):
         lines.append('sockbase ' + base)
         sockpath = (w + '/' + base).encode()
         assert pr['sockbase'] == 'short' or len(sockpath) == pr['sockbase']
-    lines += ['sinks %s %s' % pr['sinks'], 'setenv %s %s' % (H.hx(b'IDV'), H.hx(b'VAL'))]
+    lines += ['sinks %s %s' % pr['sinks'], 'setenv %s %s' % (H.hx(b'IDV'), H.hx(b'VAL')), 'setenv %s %s' % (H.hx(b'IDL120'), H.hx(b'e' * 120)), 'setenv %s %s' % (H.hx(b'IDL250'), H.hx(b'f' * 250))]
     for c in pr['cases']:
         cfg = c['cfg']
         if cfg is None:
